@@ -726,6 +726,24 @@ def recon_mismatch(o):
     return None
 
 
+def make_item(k, o, b):
+    """the Coq term that evaluates every byte-level stage on one real definition."""
+    decl = clist(['(%s, %s, %s, %s)' % (cb(n), cz(i), cz(r), clist(ws, cz)) for n, i, r, ws in o.get('decl', [])])
+
+    def c_in(i):
+        return '(IConst %s)' % cz(i[1]) if i[0] == -1 else '(IOut %s %s)' % (cz(i[0]), cz(i[1]))
+    truth = clist(['(mkUgen %s %s %s %s %s)' % (cb(u[0]), cz(u[1]), clist(u[2], c_in), clist(u[3], cz), cz(u[4]))
+                   for u in o.get('truth', [])])
+    light = sum(len(d_[3]) for d_ in o.get('decl', [])) > 4000
+    fn = 'check_case_light' if light else 'check_case'
+    if light:
+        decl = clist(['(%s, %s, %s, [])' % (cb(n), cz(i), cz(r)) for n, i, r, ws in o.get('decl', [])])
+    return '(' + fn + ' %s %s %s %s %s %s %s %s %s %s %s)' % (
+        cb(b), c_order(o['order']), 'None' if light else c_desc(o['desc']), c_names3(o['names3']),
+        c_vsrc(k.get('variants')), decl, copt(o.get('defname'), cb), cb(k['name']), truth,
+        clist(o.get('truthk', []), cz), c_libops(o.get('recon')))
+
+
 def c_names3(n3):
     return clist(['(%s, %s, %s)' % (cb(n), cz(i), cz(ch)) for n, i, ch in n3])
 
@@ -831,19 +849,7 @@ def correspond(ctx):
                             break
             except oracle.FormatError:
                 pass
-            decl = clist(['(%s, %s, %s, %s)' % (cb(n), cz(i), cz(r), clist(ws, cz)) for n, i, r, ws in o.get('decl', [])])
-            def c_in(i):
-                return '(IConst %s)' % cz(i[1]) if i[0] == -1 else '(IOut %s %s)' % (cz(i[0]), cz(i[1]))
-            truth = clist(['(mkUgen %s %s %s %s %s)' % (cb(u[0]), cz(u[1]), clist(u[2], c_in), clist(u[3], cz), cz(u[4]))
-                           for u in o.get('truth', [])])
-            light = sum(len(d_[3]) for d_ in o.get('decl', [])) > 4000
-            fn = 'check_case_light' if light else 'check_case'
-            if light:
-                decl = clist(['(%s, %s, %s, [])' % (cb(n), cz(i), cz(r)) for n, i, r, ws in o.get('decl', [])])
-            items.append('(' + fn + ' %s %s %s %s %s %s %s %s %s %s %s)' % (
-                cb(b), c_order(o['order']), 'None' if light else c_desc(o['desc']), c_names3(o['names3']),
-                c_vsrc(k.get('variants')), decl, copt(o.get('defname'), cb), cb(k['name']), truth,
-                clist(o.get('truthk', []), cz), c_libops(o.get('recon'))))
+            items.append(make_item(k, o, b))
             bad_r = recon_mismatch(o)
             if bad_r:
                 c.failures.append(Failure(
@@ -1291,6 +1297,47 @@ def badsweep_correspond(ctx, c):
             signature='C02:unvalidated-input:' + b['checker'], found_input=True, theorem='invalid_rejected',
             replay={'python': b['python'], 'bytes': b['bytes'], 'observed': b['what'],
                     'expected': 'an exception (ValueError: ... has bad input) and no bytes'}))
+    # every constructor that builds: the definition around it goes through the same byte-level stages as the
+    # generated programs (model parser, wf_def, model writer, library reader vs mirror, live objects, operators)
+    # and through the independent reader -- every installed class with its own writer/reader hooks is emitted
+    built = [r for r in res.get('built', []) if r.get('bytes')]
+    items, reported = [], set()
+    for r in built:
+        b = bytes.fromhex(r['bytes'])
+        k = {'name': 'bs', 'variants': None}
+        items.append(make_item(k, r, b))
+        why = oracle.check_bytes(b, [tuple(x) for x in r['order']])
+        bad_r = recon_mismatch(r)
+        if why or bad_r:
+            reported.add(r['ctor'])
+            c.failures.append(Failure(
+                'correspondence',
+                'the definition built around %s (%d units, %d bytes): %s' % (
+                    r['ctor'], r['nunits'], len(b),
+                    ('independent reader: ' + why) if why else ('the library reader, applied to the emitted bytes, ' + bad_r)),
+                found_input=True, theorem='scgf_roundtrip' if why else 'reader_recovers',
+                replay={'python': 'the SynthDef built by harness/impl/c02_badsweep.py around %s (arguments from its signature)' % r['ctor'],
+                        'bytes': r['bytes'], 'observed': why or bad_r}))
+    c.count('sweep:definitions-through-byte-level-stages', len(built))
+    body = 'Eval vm_compute in bad_idx (fun c => c =? 0) cases.'
+    badi, errs = fw.check_shards(ctx, 'sweepdefs', HEADER, items, body, shard=40, timeout=900)
+    for e in errs:
+        c.failures.append(Failure('correspondence', 'coq evaluation of sweep definitions failed: ' + e))
+    import re
+    for i in badi:
+        if built[i]['ctor'] in reported or len(reported) >= 8:
+            continue
+        reported.add(built[i]['ctor'])
+        rc, out = ctx.coq('swdiag', HEADER + 'Eval vm_compute in %s.\n' % items[i], timeout=300)
+        mm = re.search(r'=\s*(\d+)', out)
+        stage = int(mm.group(1)) if mm else -1
+        c.failures.append(Failure(
+            'correspondence', 'the definition built around %s (%d units, %d bytes): %s' % (
+                built[i]['ctor'], built[i]['nunits'], len(built[i]['bytes']) // 2, STAGE.get(stage, 'stage %s' % stage)),
+            found_input=(stage in (1, 2, 4, 7, 9, 10, 11)),
+            replay={'python': 'the SynthDef built by harness/impl/c02_badsweep.py around %s' % built[i]['ctor'],
+                    'bytes': built[i]['bytes'], 'stage': stage, 'libdesc': built[i]['desc'], 'libdesc_exc': built[i]['desc_exc']}))
+    c.failures.sort(key=lambda f: 0)     # keep order
     if res['stats'].get('baseline-built', 0) < 300:
         c.failures.append(Failure('correspondence', 'invalid-input sweep degenerated: only %s constructors could be called' % res['stats'].get('baseline-built')))
     return res['stats'].get('substitutions', 0)
